@@ -12,7 +12,10 @@ PLAN = {
 }
 LEVEL = "fault_enumeration"
 RULE = ("a case is a schema (secrets aes/xor/best, challenge, bytes, containers, nesting, config types, untyped "
-        "fields) with two valid states and a format; the destination is pre-filled by a successful save of state 1; "
+        "fields) with two valid states and a format; the destination (given as an absolute, a working-directory-relative "
+        "or a home-relative path) is pre-filled by a successful save of state 1; in 2/3 of the cases the file is then "
+        "rewritten, truncated or removed by somebody else (or by another configuration) and the unchanged "
+        "configuration is saved again; "
         "then (a) natural failures of the second save: a value no format can encode in an untyped field, a malformed "
         "key file, an unknown format, an unknown format option, a value outside the format's domain (BSON 2**70, XML "
         "NUL); (b) line-level failpoints: a clean save is traced, the number N of line events inside the package "
@@ -22,7 +25,7 @@ RULE = ("a case is a schema (secrets aes/xor/best, challenge, bytes, containers,
         "destination's bytes and existence are compared and the audit log must show no write-open of it; every "
         "successful save is compared with dumps() (deterministic states) and loaded back; non-trivial = >= 1 failing "
         "save judged with a pre-existing destination; distinct = distinct (schema, states, format, fault)")
-REQUIRED = ("failing_saves_judged", "natural_failures_judged", "injected_failures_judged", "successful_saves_judged",
+REQUIRED = ("dest_form:rel", "dest_form:home", "resaves_after_foreign_change", "failing_saves_judged", "natural_failures_judged", "injected_failures_judged", "successful_saves_judged",
             "loaded_back_equal", "distinct_injection_lines", "fault:unencodable", "fault:keyfile", "fault:format",
             "fault:option", "fault:domain", "fault:keyfile-same-secret", "fault:rekey", "crash_points_judged")
 ASSUMPTIONS = ["atomicity of the write itself (a crash between open and the end of write) is not part of the property",
@@ -47,6 +50,8 @@ def generate(rng, ctx):
     fault = weighted(rng, [(3, "none"), (2, "unencodable"), (2, "keyfile"), (1.5, "keyfile-same-secret"), (1.5, "rekey"), (1, "format"),
                            (1, "option"), (2, "domain")])
     return {"schema": schema, "fmt": fmt, "t1": t1, "t2": t2, "fault": fault, "r": rng.getrandbits(30),
+            "dest_form": rng.choice(["abs", "abs", "rel", "home"]),
+            "foreign": rng.choice(["none", "none", "garbage", "truncate", "delete", "other-config"]),
             "crash": rng.random() < (0.5 if ctx.tier == "thorough" else 0.3)}
 
 
@@ -60,6 +65,12 @@ def _read(path):
             return fp.read()
     except OSError:
         return None
+
+
+class Dest(str):
+    """Absolute path of the destination; .given is the form handed to the library (absolute, relative to the
+    working directory, or home-relative)."""
+    given = None
 
 
 class Unencodable:
@@ -77,7 +88,36 @@ def run(case, ctx, res):
     built = spec.build(cc, root)
     keypath = os.path.join(ctx.dir, "save.key")
     cfg = cc.Config(built.schema, key_filename=keypath)
-    dest = os.path.join(ctx.dir, "out.cfg")
+    form = case.get("dest_form", "abs")
+    res.count("dest_form:" + form)
+    if form == "home":
+        hd = os.path.join(os.path.expanduser("~"), "c19-" + os.path.basename(ctx.dir))
+        os.makedirs(hd, exist_ok=True)
+        dest = Dest(os.path.join(hd, "out.cfg"))
+        dest.given = "~/" + os.path.basename(hd) + "/out.cfg"
+    elif form == "rel":
+        os.chdir(ctx.dir)
+        dest = Dest(os.path.join(ctx.dir, "out.cfg"))
+        dest.given = rng_choice(case["r"], ["out.cfg", "./out.cfg", "../%s/out.cfg" % os.path.basename(ctx.dir)])
+    else:
+        dest = Dest(os.path.join(ctx.dir, "out.cfg"))
+        dest.given = str(dest)
+    try:
+        return _run(case, ctx, res, cc, env, fmt, root, built, keypath, cfg, dest)
+    finally:
+        if form == "home":
+            import shutil
+
+            shutil.rmtree(hd, ignore_errors=True)
+        if form == "rel":
+            os.chdir(ctx.sb.root)
+
+
+def rng_choice(r, options):
+    return options[r % len(options)]
+
+
+def _run(case, ctx, res, cc, env, fmt, root, built, keypath, cfg, dest):
     log = ctx.filelog
     if log is None:
         log = ctx.filelog = FileLog(ctx.sb.root)
@@ -93,6 +133,30 @@ def run(case, ctx, res):
     if not ok:
         res.count("first_save_failed_naturally")
         return
+    # ---- something else rewrites / removes the destination, the same configuration is saved again unchanged
+    foreign = case.get("foreign", "none")
+    if foreign != "none":
+        if foreign == "garbage":
+            with open(dest, "wb") as fp:
+                fp.write(b"\x00garbage written by somebody else\n")
+        elif foreign == "truncate":
+            with open(dest, "wb") as fp:
+                pass
+        elif foreign == "delete":
+            os.unlink(dest)
+        elif foreign == "other-config":
+            other = cc.Config(built.schema, key_filename=keypath)
+            try:
+                other.save(dest.given, fmt)
+            except Exception:
+                pass
+        res.count("resaves_after_foreign_change")
+        ok = _judged_save(cc, ctx, res, cfg, built, root, dest, fmt, {}, log, keypath, "resave-after-" + foreign)
+        if ok is None:
+            return
+        if not ok:
+            res.count("resave_failed_naturally")
+            return
     # ---- second state + natural fault
     try:
         t2 = _copy(case["t2"])
@@ -172,7 +236,7 @@ def _judged_save(cc, ctx, res, cfg, built, root, dest, fmt, kwargs, log, keypath
     log.clear()
     with log:
         try:
-            cfg.save(dest, fmt, **kwargs)
+            cfg.save(dest.given, fmt, **kwargs)
             err = None
         except Exception as exc:
             err = exc
@@ -231,7 +295,7 @@ def _check_success(cc, ctx, res, cfg, built, root, dest, fmt, kwargs, keypath, a
         if kwargs:
             fresh.loads(after, fmt, **kwargs)
         else:
-            fresh.load(dest, fmt)
+            fresh.load(dest.given, fmt)
     except Exception as exc:
         res.viol("M-file", "saved-file-does-not-load:" + fmt, "file written by a successful save does not load: %s: %s" % (
             type(exc).__name__, str(exc)[:200]))
@@ -258,7 +322,7 @@ def _sweep(cc, ctx, res, case, cfg, built, root, dest, fmt, log, keypath):
     log.on_event = on_event
     try:
         with log:
-            outcome, val, events = fp.run(lambda: cfg.save(dest, fmt))
+            outcome, val, events = fp.run(lambda: cfg.save(dest.given, fmt))
     finally:
         log.on_event = None
     if outcome != "ok" or mark["n"] is None:
@@ -294,7 +358,7 @@ def _sweep(cc, ctx, res, case, cfg, built, root, dest, fmt, log, keypath):
         log.on_event = on_open
         try:
             with log:
-                outcome, val, _ev = fp.run(lambda: cfg.save(dest, fmt), k=k, exc=InjectedFault("injected fault #%d" % k))
+                outcome, val, _ev = fp.run(lambda: cfg.save(dest.given, fmt), k=k, exc=InjectedFault("injected fault #%d" % k))
         finally:
             log.on_event = None
         after = _read(dest)
@@ -328,7 +392,7 @@ def _sweep(cc, ctx, res, case, cfg, built, root, dest, fmt, log, keypath):
                 try:
                     log.on_event = on_open  # no crash is simulated once the destination has been opened
                     with log:
-                        fp.run(lambda: cfg.save(dest, fmt), k=k, action=lambda: os._exit(9))
+                        fp.run(lambda: cfg.save(dest.given, fmt), k=k, action=lambda: os._exit(9))
                 finally:
                     os._exit(0)
             _pid, status = os.waitpid(pid, 0)
